@@ -100,6 +100,7 @@ def run(ctx):
                 for cs, leaf in raise_leaves(v):
                     trig = T.hoist(cs[-1]) if cs else None
                     ok = trig is not None and any(trig == T.hoist(a) or T.assume(trig, set(cs[:-1])) == T.assume(a, set(cs[:-1])) for a in allowed)
+                    ok = ok or depth_overflow(cs, node)
                     ob.require(ok, 'PrvKeyNode.ckd refuses (%s) under a condition that BIP32 does not declare invalid' % leaf[1], fckd.where,
                                expected='only IL >= n or k_i == 0', found=T.show(cs[-1], maxdepth=5) if cs else 'unconditional')
                 feas = [cs for cs, leaf in nl if not contradictory(known_at(f, cs))]
